@@ -47,3 +47,24 @@ pub use crate::syntax::{
 
 pub use completion::{list_completion_options, CompletionItem};
 pub use standard::VHDLStandard;
+
+/// Re-exports of crate internals for the external verification harness.
+/// Only compiled with `--cfg vhdl_ls_rust_hdl_verif`.
+#[cfg(vhdl_ls_rust_hdl_verif)]
+pub mod verif {
+    pub mod syntax {
+        pub use crate::syntax::*;
+    }
+    pub mod data {
+        pub use crate::data::*;
+    }
+    pub mod analysis {
+        pub use crate::analysis::*;
+    }
+    pub mod named_entity {
+        pub use crate::named_entity::*;
+    }
+    pub mod lint {
+        pub use crate::lint::*;
+    }
+}
